@@ -110,6 +110,40 @@ struct Inner {
     max_files: Option<usize>,
 }
 
+/// Verification hooks (off unless built with `--cfg tokio_rs_tracing_verif`): a process-wide
+/// override of the clock the appender reads, and named yield points in the shared
+/// `MakeWriter` path so that a test harness can schedule racing writers.
+#[cfg(tokio_rs_tracing_verif)]
+#[doc(hidden)]
+pub mod verif {
+    use std::sync::atomic::{AtomicI64, Ordering};
+    use std::sync::RwLock;
+
+    static CLOCK: AtomicI64 = AtomicI64::new(i64::MIN);
+    static HOOK: RwLock<Option<fn(&'static str)>> = RwLock::new(None);
+
+    /// Overrides (or, with `None`, restores) the clock: seconds since the Unix epoch.
+    pub fn set_clock(unix_timestamp: Option<i64>) {
+        CLOCK.store(unix_timestamp.unwrap_or(i64::MIN), Ordering::SeqCst);
+    }
+    /// Installs a function called at every yield point with the point's name.
+    pub fn set_hook(hook: Option<fn(&'static str)>) {
+        *HOOK.write().unwrap() = hook;
+    }
+    pub(super) fn now() -> Option<time::OffsetDateTime> {
+        match CLOCK.load(Ordering::SeqCst) {
+            i64::MIN => None,
+            t => time::OffsetDateTime::from_unix_timestamp(t).ok(),
+        }
+    }
+    pub(super) fn point(site: &'static str) {
+        let hook = *HOOK.read().unwrap();
+        if let Some(hook) = hook {
+            hook(site);
+        }
+    }
+}
+
 // === impl RollingFileAppender ===
 
 impl RollingFileAppender {
@@ -193,6 +227,8 @@ impl RollingFileAppender {
         } = builder;
         let directory = directory.as_ref().to_path_buf();
         let now = OffsetDateTime::now_utc();
+        #[cfg(tokio_rs_tracing_verif)]
+        let now = verif::now().unwrap_or(now);
         let (state, writer) = Inner::new(
             now,
             rotation.clone(),
@@ -213,6 +249,11 @@ impl RollingFileAppender {
     fn now(&self) -> OffsetDateTime {
         #[cfg(test)]
         return (self.now)();
+
+        #[cfg(all(tokio_rs_tracing_verif, not(test)))]
+        if let Some(now) = verif::now() {
+            return now;
+        }
 
         #[cfg(not(test))]
         OffsetDateTime::now_utc()
@@ -243,12 +284,18 @@ impl<'a> tracing_subscriber::fmt::writer::MakeWriter<'a> for RollingFileAppender
 
         // Should we try to roll over the log file?
         if let Some(current_time) = self.state.should_rollover(now) {
+            #[cfg(tokio_rs_tracing_verif)]
+            verif::point("rolling.after_should_rollover");
             // Did we get the right to lock the file? If not, another thread
             // did it and we can just make a writer.
             if self.state.advance_date(now, current_time) {
+                #[cfg(tokio_rs_tracing_verif)]
+                verif::point("rolling.after_cas");
                 self.state.refresh_writer(now, &mut self.writer.write());
             }
         }
+        #[cfg(tokio_rs_tracing_verif)]
+        verif::point("rolling.before_read_lock");
         RollingWriter(self.writer.read())
     }
 }
